@@ -159,9 +159,13 @@ def job(args):
     ws, phis, T, rec = make_solve_world(sm, cls)
     ws.ctx.events.clear()
     try:
-        ws.call('pdesolver', 'solvePDE', phis, [T['M1'], T['R1'], (T['M2'], T['R2'])], ws.ext)
+        tl = [T['M1'], T['R1'], (T['M2'], T['R2'])]
+        tl0 = list(tl)
+        ws.interp.frozen_lists = {id(tl): 'eqnterms (the caller\'s list)'}
+        ws.call('pdesolver', 'solvePDE', phis, tl, ws.ext)
         muts = [e for e in ws.ctx.events if e[0] == 'input-mutated' and not str(e[1]).startswith('phi._value')]
-        ob('Z2', 'pdesolver.solvePDE', not muts, f"stores outside the solution variable: {muts[:3]}" if muts else "only the solution variable is written", fs.loc())
+        same = len(tl) == len(tl0) and all(x is y for x, y in zip(tl, tl0))
+        ob('Z2', 'pdesolver.solvePDE', not muts and same, (f"stores outside the solution variable: {muts[:3]}" if muts else f"the caller's term list changed: {len(tl0)} -> {len(tl)} entries") if (muts or not same) else "only the solution variable is written", fs.loc())
     except AbstractRaise as e:
         ob('Z2', 'pdesolver.solvePDE', False, f"raises {e.exc}", fs.loc())
     return dict(obs=obs, units=sorted(x for x in units if isinstance(x, str)), samples=samples)
